@@ -118,3 +118,32 @@ def c17_plan(ctx, tier):
 
 
 PLANS["C17"] = c17_plan
+
+
+IO_RULE = ("TLC explores BM_IO for every (recipe, document) of fam_io x every entry point x both writer kinds x every index of the write "
+           "sequence as failure point (transient and permanent) x every token offset as reader failure point and checks EntryAgree, "
+           "PrefixOfFaultFree, FailIsLast, AfterFailNoWrite, FailReported; every finished run is replayed with a scripted io.Reader / io.Writer "
+           "around the real entry point (writes, error result, tokens consumed compared); per (policy, document) the harness additionally "
+           "replays every single cut position and every pair of cut positions (short inputs), one-byte reads, zero-length reads, data+EOF, "
+           "every write index x mode x writer kind and every byte offset as reader failure; iofuzz does the same for random policies and "
+           "documents and its faulty runs are trace-validated (werr/rerr). non-trivial = distinct (policy, document, environment)")
+
+
+def c15_plan(ctx, tier):
+    q = tier == "quick"
+    ctx.mc_replay("io", "MC_IO.tla", "MC_IO.cfg", "fam_io.json", ["C15"], replaycmd="replayio", timeout=3000)
+    ctx.trace("iofuzz", ["C15"], cmd=["iofuzz", "-props", "C15", "-sessions", "30" if q else "400", "-calls", "10" if q else "25"], check_attrs=True, timeout=3000)
+    ctx.vh("cli", ["clicheck", "-n", "40" if q else "600"], timeout=3000)
+    return dict(rule=IO_RULE + "; clicheck builds cmd/sanitise_ugc and cmd/sanitise_html_email from /repo and compares stdout with the library "
+                "result of the harness' frozen copy of their documented policy", exhaustive=False, assumptions=ASSUME_COMMON)
+
+
+def c16_plan(ctx, tier):
+    q = tier == "quick"
+    ctx.mc_replay("io", "MC_IO.tla", "MC_IO.cfg", "fam_io.json", ["C16"], replaycmd="replayio", timeout=3000)
+    ctx.trace("iofuzz", ["C16"], cmd=["iofuzz", "-props", "C16", "-sessions", "30" if q else "400", "-calls", "10" if q else "25"], check_attrs=True, timeout=3000)
+    return dict(rule=IO_RULE, exhaustive=False, assumptions=ASSUME_COMMON)
+
+
+PLANS["C15"] = c15_plan
+PLANS["C16"] = c16_plan
